@@ -2,10 +2,23 @@
 
 It reassembles Block1 bodies by offset, serves Block2 slices of a representation with an ETag,
 negotiates block sizes (initial and mid-transfer reduction), de-duplicates by (source, MID),
-records every block request it saw, and can misbehave in scripted ways."""
+records every block request it saw, and can misbehave in scripted ways.
+
+RFC 8323 section 6 (BERT) is understood when the peer is known to be capable of it (`peer_bert`, what a
+CSM exchange establishes on the reliable transports): a block option with SZX 7 counts NUM in units of
+1024 bytes just like SZX 6, the payload of a non-final BERT block is a non-zero multiple of 1024 bytes,
+the payload of a final one is arbitrary. A server with `szx=7` echoes SZX 7 in its Block1
+acknowledgements and serves `bert_blocks` x 1024 bytes per Block2 response; a server with `szx<=6`
+accepts BERT request blocks and answers with its smaller size (the client then continues at the same
+byte offset in the smaller unit). Without `peer_bert` the value 7 is reserved (4.00)."""
 
 from . import refcodec as rc
 from .simnet import RawPeer
+
+
+def unit(szx):
+    """bytes that one step of NUM stands for"""
+    return 1024 if szx == 7 else 1 << (szx + 4)
 
 
 class Transfer:
@@ -16,7 +29,7 @@ class Transfer:
 
 
 class BlockServer:
-    def __init__(self, net, ip, port, *, szx=6, representation=b"", etag=b"v1", reduce_block1_at=None, reduce_block2_at=None, misbehave=None, misbehave_at=1, success_code=None, fail_block1_at=None):
+    def __init__(self, net, ip, port, *, szx=6, representation=b"", etag=b"v1", reduce_block1_at=None, reduce_block2_at=None, misbehave=None, misbehave_at=1, success_code=None, fail_block1_at=None, peer_bert=False, bert_blocks=1, misbehave_arg=None):
         self.net = net
         self.szx = szx  # largest block size exponent the server accepts / uses
         self.representation = representation
@@ -28,6 +41,13 @@ class BlockServer:
         self.success_code = success_code
         self.fail_block1_at = fail_block1_at  # (index of the Block1 request in arrival order, error code, echo the option?)
         self.failed_block1 = 0
+        self.peer_bert = peer_bert  # the peer is known to understand BERT (RFC 8323 section 6)
+        self.bert_blocks = bert_blocks  # 1024-byte blocks per BERT response of a server with szx == 7
+        self.misbehave_arg = misbehave_arg or {}
+        self.first_later = 0  # first Block2 responses that carried a later block than the one due
+        self.code_changed = 0  # later Block2 responses sent with another response code
+        self.changed_first = None  # (code, payload) of the first of them
+        self.bert_served = 0  # Block2 responses with SZX 7
         self.seen = []  # every distinct request: dict(code, b1, b2, plen, t, size1)
         self.transfers = {}  # (src, path) -> Transfer
         self.completed_bodies = []  # (path, bytes) of completely reassembled request bodies
@@ -67,18 +87,27 @@ class BlockServer:
         b2 = rc.block_value(b2) if b2 is not None else None
         path = tuple(rc.opt(m, rc.URI_PATH))
         size1 = rc.opt1(m, rc.SIZE1)
-        self.seen.append({"code": m.code, "b1": b1, "b2": b2, "plen": len(m.payload), "t": self.net.loop.time(), "size1": rc.uint_value(size1) if size1 is not None else None, "path": path, "payload": m.payload})
+        rec = {"ack1": None}
+        self.seen.append(rec)
+        rec.update({"code": m.code, "b1": b1, "b2": b2, "plen": len(m.payload), "t": self.net.loop.time(), "size1": rc.uint_value(size1) if size1 is not None else None, "path": path, "payload": m.payload})
         opts = []
         tkey = (src, path)
         body = None
+        if (b1 is not None and b1[2] == 7 or b2 is not None and b2[2] == 7) and not self.peer_bert:
+            return (rc.c(4, 0), [], b"SZX 7 is reserved")
         if b1 is not None:
             num, more, szx = b1
-            size = 1 << (szx + 4)
+            size = unit(szx)
             offset = num * size
             tr = self.transfers.get(tkey)
             if num == 0:
                 tr = self.transfers[tkey] = Transfer()
-            if tr is None or offset != len(tr.body) or (more and len(m.payload) != size) or len(m.payload) > size:
+            if szx == 7:
+                # BERT: a non-final block is a non-empty sequence of whole 1024-byte blocks, a final one is arbitrary
+                badlen = more and (len(m.payload) == 0 or len(m.payload) % 1024 != 0)
+            else:
+                badlen = (more and len(m.payload) != size) or len(m.payload) > size
+            if tr is None or offset != len(tr.body) or badlen:
                 return (rc.c(4, 8), [], b"incomplete")
             idx = self.b1_count
             if self.fail_block1_at is not None and idx == self.fail_block1_at[0]:
@@ -93,6 +122,7 @@ class BlockServer:
             ack_szx = min(szx, self.szx)
             if self.reduce_block1_at is not None and idx >= self.reduce_block1_at[0]:
                 ack_szx = min(ack_szx, self.reduce_block1_at[1])
+            rec["ack1"] = (num, more, ack_szx)  # the size the server answered with (for the oracles' context)
             ack_num = num
             if self.misbehave == "b1-wrong-num" and idx == self.misbehave_at:
                 ack_num = num + 1
@@ -118,19 +148,22 @@ class BlockServer:
         rep = self.representation
         etag = self.etag
         code = self.success_code if self.success_code is not None else (rc.c(2, 5) if m.code in (1, 5) else rc.c(2, 4))
-        want_num, want_szx = 0, self.szx
+        # the size the server uses of its own accord: BERT only towards a peer known to be capable of it
+        own_szx = self.szx if (self.szx < 7 or self.peer_bert) else 6
+        want_off, want_szx = 0, own_szx
         if b2 is not None:
-            want_num, _, want_szx = b2
-            want_szx = min(want_szx, self.szx)
-            if want_szx < b2[2]:
-                # serve the same offset in smaller blocks
-                want_num = b2[0] << (b2[2] - want_szx)
+            # control usage: the client asks for the block at NUM x unit in blocks of at most its SZX; a smaller
+            # server size serves the same offset in smaller blocks
+            want_off = b2[0] * unit(b2[2])
+            want_szx = min(b2[2], own_szx)
         idx2 = self.b2_count
         if self.reduce_block2_at is not None and idx2 >= self.reduce_block2_at[0] and want_szx > self.reduce_block2_at[1]:
-            want_num <<= want_szx - self.reduce_block2_at[1]
             want_szx = self.reduce_block2_at[1]
-        size = 1 << (want_szx + 4)
-        if b2 is None and len(rep) <= size:
+        u = unit(want_szx)
+        size = u * self.bert_blocks if want_szx == 7 else u  # payload bytes per response
+        want_num = want_off // u
+        first_later = self.misbehave == "b2-first-later-block" and idx2 == 0 and want_off == 0
+        if b2 is None and len(rep) <= size and not first_later:
             if etag:
                 opts.append((rc.ETAG, etag))
             return (code, opts, rep)
@@ -145,17 +178,45 @@ class BlockServer:
             # answers the request for block n with a well-formed earlier block (its own number, content and more-flag)
             want_num = want_num - 1 if mis == "b2-repeat-prev" else 0
             self.repeated_earlier = getattr(self, "repeated_earlier", 0) + 1
-        offset = want_num * size
+        offset = want_num * u
+        forced_num = None
+        if first_later:
+            # where block 0 is due (the response to a request without Block2 / asking for block 0, the final
+            # Block1 acknowledgement), the server sends a later block: a well-formed one of a longer
+            # representation (its own number, content and more-flag; the last one if misbehave_at points beyond),
+            # or a single-block representation under a non-zero block number
+            self.first_later += 1
+            nresp = -(-len(rep) // size)
+            if nresp <= 1:
+                forced_num = self.misbehave_at + 1
+            else:
+                offset = min(self.misbehave_at + 1, nresp - 1) * size
+                want_num = offset // u
         if offset >= len(rep) and len(rep) > 0 or offset > len(rep):
             return (rc.c(4, 0), [], b"out of range")
         chunk = rep[offset : offset + size]
         more = offset + size < len(rep)
-        num_out = want_num
+        num_out = want_num if forced_num is None else forced_num
         if mis == "b2-wrong-num" and idx2 == self.misbehave_at:
             num_out = want_num + 1
         if mis == "b2-short-with-more" and idx2 == self.misbehave_at and more and len(chunk) > 1:
             chunk = chunk[:-1]
+        if mis == "b2-code-changes" and offset > 0:
+            # from some later block on the exchange is answered with another response code (the resource vanished,
+            # the server failed, ...) while the response still carries a Block2 option that fits the request:
+            # either a short diagnostic payload as the final block, or the slice that was asked for
+            arg = self.misbehave_arg
+            code = arg.get("code", rc.c(4, 4))
+            if arg.get("payload", "diag") == "diag":
+                chunk, more = b"gone", False
+            if not arg.get("etag", False):
+                etag = b""
+            self.code_changed += 1
+            if self.changed_first is None:
+                self.changed_first = (code, bytes(chunk))
         self.served.append((offset, len(chunk)))
+        if want_szx == 7:
+            self.bert_served += 1
         if etag:
             opts.append((rc.ETAG, etag))
         opts.append((rc.BLOCK2, rc.block_bytes(num_out, more, want_szx)))
